@@ -50,18 +50,32 @@ pub fn layouts() -> Vec<Layout> {
 }
 
 fn resolve<'a>(doc: &'a V, pointer: &str) -> Option<&'a V> {
-    let mut cur = doc;
     if pointer.is_empty() {
-        return Some(cur);
+        return Some(doc);
     }
-    for seg in pointer.trim_start_matches('/').split('/') {
-        cur = match cur {
-            V::Map(m) => m.iter().find(|(k, _)| k == seg).map(|(_, v)| v)?,
-            V::List(l) => l.get(seg.parse::<usize>().ok()?)?,
-            _ => return None,
-        };
+    // the tool does not escape '/' inside keys, so a pointer is read under every segmentation: a key may span several segments
+    fn go<'a>(cur: &'a V, segs: &[&str]) -> Option<&'a V> {
+        if segs.is_empty() {
+            return Some(cur);
+        }
+        match cur {
+            V::Map(m) => {
+                for j in 1..=segs.len() {
+                    let k = segs[..j].join("/");
+                    if let Some((_, v)) = m.iter().find(|(k2, _)| *k2 == k) {
+                        if let Some(r) = go(v, &segs[j..]) {
+                            return Some(r);
+                        }
+                    }
+                }
+                None
+            }
+            V::List(l) => go(l.get(segs[0].parse::<usize>().ok()?)?, &segs[1..]),
+            _ => None,
+        }
     }
-    Some(cur)
+    let segs: Vec<&str> = pointer.strip_prefix('/')?.split('/').collect();
+    go(doc, &segs)
 }
 
 /// pointers at which the traversal of `q` gets stuck (an unresolved result), by an independent walk
@@ -279,6 +293,10 @@ pub fn run(tier: &str) -> i32 {
     let mut docs = docs_quick();
     docs.push(m(vec![("a", m(vec![("a", l(vec![m(vec![("b", i(1)), ("a", s("x"))]), m(vec![("b", s("two words"))])])), ("b", f(2.5))])), ("b", l(vec![i(1), s(""), V::Null, V::Bool(false)]))]));
     docs.push(m(vec![("b", i(1)), ("a", l(vec![l(vec![i(1), i(2)]), l(vec![s("x")])]))]));
+    // unusual keys: empty, containing the path separator, numeric, with spaces and dots
+    docs.push(m(vec![("a", m(vec![("", m(vec![("a", i(2)), ("b", s("x"))])), ("a", m(vec![("a", i(1)), ("b", s("y"))]))])), ("b", i(1))]));
+    docs.push(m(vec![("a", m(vec![("a/b", l(vec![i(3), i(1)])), ("0", l(vec![i(2)])), ("a b", l(vec![])), ("a.b", i(1))])), ("b", i(3))]));
+    docs.push(m(vec![("a", l(vec![m(vec![("", i(2)), ("a", i(1))]), m(vec![("", l(vec![i(1), i(2)]))])])), ("", i(1)), ("b", i(2))]));
     let written: Vec<Vec<(String, Positions)>> = docs.iter().map(|d| lays.iter().map(|l| write(d, l)).collect()).collect();
     let n = progs.len() * docs.len();
     let lay_step = if thorough { 1 } else { 3 };
